@@ -49,6 +49,20 @@ class _LouvainCapture(_Louvain):
 _le_mod.Louvain = _LouvainCapture
 
 
+def _history(est, a, with_fb):
+    """Refit family: the SAME estimator object is first fitted on the earlier graphs of the sequence.
+    An earlier fit that raises (e.g. n_components too large for that graph) is simply skipped."""
+    for h in a.get('history', []):
+        try:
+            if with_fb:
+                est.fit(mk_matrix(h['m']), force_bipartite=h.get('force_bipartite', False))
+            else:
+                est.fit(mk_matrix(h['m']))
+        except Exception:  # noqa
+            pass
+    _captured.clear()
+
+
 def _arr(x):
     return None if x is None else np.asarray(x).tolist()
 
@@ -58,6 +72,7 @@ def spectral(a):
     m = mk_matrix(a['m'])
     est = Spectral(n_components=a['n_components'], decomposition=a['decomposition'],
                    regularization=a['regularization'], normalized=a['normalized'])
+    _history(est, a, True)
     est.fit(m, force_bipartite=a.get('force_bipartite', False))
     return dict(eigenvalues=_arr(est.eigenvalues_), eigenvectors=_arr(est.eigenvectors_),
                 embedding=_arr(est.embedding_), embedding_row=_arr(est.embedding_row_),
@@ -92,6 +107,7 @@ def gsvd(a):
                   factor_singular=a['factor_singular'], normalized=a['normalized'], solver=_solver(a.get('solver')))
     else:
         est = PCA(n_components=a['n_components'], normalized=a['normalized'], solver=_solver(a.get('solver')))
+    _history(est, a, False)
     est.fit(m)
     dense = np.asarray(m.todense(), dtype=float)
     rows = a.get('predict_rows', [])
@@ -109,6 +125,7 @@ def random_projection(a):
     est = RandomProjection(n_components=a['n_components'], alpha=a['alpha'], n_iter=a['n_iter'],
                            random_walk=a['random_walk'], regularization=a['regularization'],
                            normalized=a['normalized'], random_state=a['seed'])
+    _history(est, a, True)
     est.fit(m, force_bipartite=a.get('force_bipartite', False))
     n = m.shape[0] + m.shape[1] if est.bipartite else m.shape[0]
     # the random matrix the estimator drew, reproduced by seeding identically (oracle input of the model)
@@ -125,6 +142,7 @@ def louvain_embedding(a):
     est = LouvainEmbedding(resolution=a.get('resolution', 1), modularity=a.get('modularity', 'Dugue'),
                            shuffle_nodes=a.get('shuffle_nodes', False), random_state=a.get('seed', 0),
                            isolated_nodes=a['isolated_nodes'])
+    _history(est, a, True)
     try:
         est.fit(m, force_bipartite=a.get('force_bipartite', False))
     except Exception as e:  # noqa
